@@ -736,7 +736,6 @@ func packageRegexpByName(pk *packages.Package, name string) (string, bool) {
 	return "", false
 }
 
-
 // checkValueParsers: enum / default / example values written in doc comments are typed by
 // parseValueFromSchema from SimpleSchema.TypeName(), which is the format when there is one. Every
 // (type, format) pair the scanner's own builtin table assigns to a numeric or boolean Go type must
@@ -807,7 +806,6 @@ func checkValueParsers(c *Ctx, scan *packages.Package) {
 		}
 	}
 }
-
 
 // checkStrfmtNames: a format mapped to a strfmt type comes back from the scanner under the name
 // that type is registered with in strfmt's default registry (the scanner reads the swagger:strfmt
